@@ -112,3 +112,54 @@ Proof.
   - apply negb_true_iff in Hntop, Hcls. apply Z.eqb_neq in Hntop, Hcls. auto.
   - apply zmem_In. exact He0.
 Qed.
+
+Theorem insert_block_h_keeps_ctrace_b h lvl top new e0 preds cls strict :
+  walk_pre_ins h lvl top new e0 preds cls = true ->
+  exists nl g1 g1',
+    find h lvl = Some nl /\ collect h (children_h nl) = Some g1 /\
+    insert_block g1 new preds [e0] cls = Ok g1' /\
+    forall n e e' ds,
+      (exists b p, find h n = Some b /\ n_kind b = KOrig p) ->
+      E Fn e e' ->
+      CTrace h (resolve_flat h) strict n e ds ->
+      CTrace (write_back h lvl g1') (resolve_flat (write_back h lvl g1')) strict n e' ds.
+Proof.
+  unfold walk_pre_ins. destruct (find h lvl) as [nl|] eqn:Hl; [|discriminate].
+  intros H. apply andb_true_iff in H as [Hlr H].
+  destruct (collect h (children_h nl)) as [g1|] eqn:HLG; [|discriminate].
+  destruct (insert_block g1 new preds [e0] cls) as [g1'| |] eqn:Hins; try discriminate.
+  exists nl, g1, g1'. split; [reflexivity|]. split; [exact HLG|]. split; [exact Hins|].
+  cbv zeta in H.
+  apply andb_true_iff in H as [H He0]. apply andb_true_iff in H as [H Hcls]. apply andb_true_iff in H as [H Hntop].
+  apply andb_true_iff in H as [H HGp]. apply andb_true_iff in H as [H Hinjb]. apply andb_true_iff in H as [H Hndp].
+  apply andb_true_iff in H as [H Hph]. apply andb_true_iff in H as [H Hfr]. apply andb_true_iff in H as [H Hrn].
+  apply andb_true_iff in H as [H Hkd]. apply andb_true_iff in H as [H Hst]. apply andb_true_iff in H as [H Hlv].
+  apply andb_true_iff in H as [H Hk']. apply andb_true_iff in H as [H Hf'].
+  destruct (flat_okb_sound h top false H) as [F1 [F2 [F3 [F4 F5]]]].
+  destruct (flat_okb_sound _ top true Hf') as [F1' [F2' [F3' [F4' F5']]]].
+  apply (insert_block_h_keeps_ctrace h lvl top new e0 nl preds cls g1 g1' strict Hl Hlr HLG Hins F1 F2 F3 F4 F5 F1' F2' F3' F4' F5').
+  - apply nodupb_sound. exact Hk'.
+  - destruct (efind g1' lvl); [discriminate|reflexivity].
+  - intros p Hp E. rewrite forallb_forall in Hst. specialize (Hst p Hp). rewrite E in Hst. discriminate.
+  - intros p b b' Hp Hb Hb'. rewrite forallb_forall in Hkd. specialize (Hkd p Hp). rewrite Hb, Hb' in Hkd.
+    generalize (kind_keptb_sound _ _ Hkd). destruct (e_kind b), (e_kind b'); cbn; auto.
+  - intros x b t Hx Hb Ht. rewrite forallb_forall in Hrn.
+    assert (Hi : In x (new :: preds)) by (destruct Hx as [Hx| ->]; [right; exact Hx|left; reflexivity]).
+    specialize (Hrn x Hi). rewrite Hb in Hrn. rewrite forallb_forall in Hrn. specialize (Hrn t Ht).
+    apply orb_true_iff in Hrn as [Hr|Hr].
+    + left. unfold resolves in Hr. destruct (enter_flat h (S (length h)) t); [discriminate|discriminate].
+    + right. destruct (find h t); [discriminate|reflexivity].
+  - destruct (find h new); [discriminate|reflexivity].
+  - intros p Hp. rewrite forallb_forall in Hph. specialize (Hph p Hp).
+    destruct (find h p) as [n|]; [|discriminate]. apply andb_true_iff in Hph as [A B].
+    exists n. split; [reflexivity|]. split; [apply negb_true_iff; exact A|exact B].
+  - apply nodupb_sound. exact Hndp.
+  - intros a b Ha Hb E. rewrite forallb_forall in Hinjb. specialize (Hinjb a Ha). rewrite forallb_forall in Hinjb. specialize (Hinjb b Hb).
+    apply orb_true_iff in Hinjb as [Hn|Hn]; [apply negb_true_iff in Hn; apply Z.eqb_neq in Hn; contradiction|apply Z.eqb_eq; exact Hn].
+  - intros p b Hp Hb. rewrite forallb_forall in HGp. specialize (HGp p Hp). rewrite Hb in HGp.
+    apply andb_true_iff in HGp as [HGp C]. apply andb_true_iff in HGp as [A B].
+    split; [apply nodupb_sound; exact A|]. split; [apply negb_true_iff in B; apply zmem_false in B; exact B|].
+    intros c w t Ek. rewrite Ek in C. apply nodupb_sound. exact C.
+  - apply negb_true_iff in Hntop, Hcls. apply Z.eqb_neq in Hntop, Hcls. auto.
+  - apply zmem_In. exact He0.
+Qed.
